@@ -5,7 +5,7 @@
 
 void harness(void) {
   VERIF_ALLOC_RESET();
-  _cbor_malloc = v_malloc; _cbor_realloc = v_realloc; _cbor_free = v_free;
+  verif_bind_allocator();
   g_alloc_forbidden = true;
   cbor_item_t *it = RO_MK();
   (void)RO_FN(it);
